@@ -112,7 +112,7 @@ class InjectedError(Exception):
 
 
 EXC = {'ValueError': ValueError, 'TypeError': TypeError, 'KeyError': KeyError, 'RuntimeError': RuntimeError,
-       'InjectedError': InjectedError, 'ZeroDivisionError': ZeroDivisionError}
+       'InjectedError': InjectedError, 'ZeroDivisionError': ZeroDivisionError, 'TimeoutError': TimeoutError}
 
 
 class ListSink:
